@@ -1,7 +1,7 @@
 (* C06 -- entry classification: for every peer-facing entry point of the node an abstract
    description of what a remote peer can deliver to it (decoded message values with every field
    optional / of any length; frame classes), and the exact condition under which the Go code
-   panics.  [panics_gen f] is parameterised by which of the three repairs are present
+   panics.  [panics_gen f] takes as argument which of the three repairs are present
      c3de1fc  f_siglen   eipVerify tests len(signature) before indexing sig[64]
      c47eaee  f_nilbid   VerifyPreConfirmation tests c.Bid == nil
      1f15f90  f_metrics  libp2p.New always creates the handshake failure counters
@@ -19,11 +19,28 @@
      pkg/p2p/libp2p/stream.go             ReadMsg, ReadHeader
      pkg/p2p/libp2p/libp2p.go             handleConnectReq / Connect (failure counters), Connect (underlay bytes) *)
 From Coq Require Import String List NArith ZArith Bool.
+From MevVerif Require Import lib.Bytes gen.Generated.
 Import ListNotations.
 Open Scope N_scope.
 
 Record fixes := { f_siglen : bool; f_nilbid : bool; f_metrics : bool }.
-Definition fixes_now : fixes := {| f_siglen := true; f_nilbid := true; f_metrics := true |}.
+
+(* libp2p.New (regenerated from the source on every run: every value given to the variable
+   [metrics], in order).  The counters exist for every Service iff the first value -- the one in
+   force when Options.MetricsReg is nil -- is built by newMetrics(...). *)
+Fixpoint has_prefix (p l : bytes) : bool :=
+  match p, l with
+  | [], _ => true
+  | a :: p', b :: l' => (a =? b) && has_prefix p' l'
+  | _, _ => false
+  end.
+Definition metrics_always_created : bool :=
+  match c06_metrics_assigns with
+  | first :: _ => has_prefix (bos "newMetrics(") first
+  | [] => false
+  end.
+
+Definition fixes_now : fixes := {| f_siglen := true; f_nilbid := true; f_metrics := metrics_always_created |}.
 Definition fixes_v0 : fixes := {| f_siglen := false; f_nilbid := false; f_metrics := false |}.
 Definition without_siglen : fixes := {| f_siglen := false; f_nilbid := true; f_metrics := true |}.
 Definition without_nilbid : fixes := {| f_siglen := true; f_nilbid := false; f_metrics := true |}.
